@@ -37,11 +37,13 @@ struct ev nondet_ev(void);
 struct vbq* mon_self; value* g_arg;
 static _Bool ev_clean(void) {
   return ev.seq_store_n == 0 && ev.enq_cas_ok_n == 0 && ev.deq_cas_ok_n == 0 && ev.pos_store_n == 0 && ev.ctor_n == 0 && ev.dtor_n == 0
-      && ev.succ_n == 0 && ev.asT_n == 0 && ev.arg_moved == 0 && ev.seq_load_weak_n == 0 && ev.seq_store_weak_n == 0 && xv_clock < ((uint64_t)1 << 32);
+      && ev.succ_n == 0 && ev.asT_n == 0 && ev.arg_moved == 0 && ev.seq_load_weak_n == 0 && ev.seq_store_weak_n == 0;
 }
 static size_t cell_index_of(void* addr) {       /* which cell's sequence word is addr (N if none) */
-  for (size_t i = 0; i < N; i++) if (addr == (void*)&mon_self->cells[i].sequence) return i;
-  return N;
+  if (!__CPROVER_same_object(addr, mon_self)) return N;
+  size_t off = (size_t)__CPROVER_POINTER_OFFSET(addr);
+  if (off >= N * sizeof(cell) || off % sizeof(cell) != offsetof(cell, sequence)) return N;
+  return off / sizeof(cell);
 }
 static void mon_load(void* addr, uint64_t v, int o) {
   size_t i = cell_index_of(addr);
@@ -67,7 +69,12 @@ static void mon_cas(void* addr, uint64_t e, uint64_t d, _Bool ok, int o) {
 #else
 #define LIFETIME(cond) XV_OBL("vbq.cell.lifetime", cond)
 #endif
-static size_t storage_index(storage_t* s) { for (size_t i = 0; i < N; i++) if (s == &mon_self->cells[i].data) return i; return N; }
+static size_t storage_index(storage_t* s) {
+  if (!__CPROVER_same_object(s, mon_self)) return N;
+  size_t off = (size_t)__CPROVER_POINTER_OFFSET(s);
+  if (off >= N * sizeof(cell) || off % sizeof(cell) != offsetof(cell, data)) return N;
+  return off / sizeof(cell);
+}
 static void xv_placement_new_move(storage_t* s, value* src) {      /* new (&v) T(std::move(source)) */
   LIFETIME(!s->alive);                                             /* constructing over a live object leaks/overwrites it */
   s->alive = 1; s->v = *src; s->ctor_n++;
@@ -94,8 +101,8 @@ size_t in_n, in_op, in_deq, in_count; value in_val;        /* replay inputs */
 struct vbq g_q0;                                            /* pre-state snapshot */
 static void build(struct vbq* q, size_t deq, size_t count, _Bool mid) {
   q->index_mask = N - 1; q->dequeue_pos = deq; q->enqueue_pos = deq + count;
-  for (size_t i = 0; i < N; i++) {
-    size_t p = deq + i; cell* c = &q->cells[p & (N - 1)];
+  for (size_t k = 0; k < N; k++) {                     /* physical cell k holds the position p of the window [deq, deq+N) with p & (N-1) == k */
+    size_t i = (k - deq) & (N - 1), p = deq + i; cell* c = &q->cells[k];
     c->data.v = nondet_u64(); c->data.ctor_n = 0; c->data.dtor_n = 0;
     if (i < count) { c->sequence = p + 1; c->data.alive = 1; if (mid && nondet_bool()) { c->sequence = p; c->data.alive = nondet_bool(); } }       /* mid: push of p claimed, not yet published */
     else { c->sequence = p; c->data.alive = 0; if (mid && nondet_bool()) { c->sequence = p - N + 1; c->data.alive = nondet_bool(); } }                /* mid: pop of p-N claimed, cell not yet released */
@@ -133,7 +140,7 @@ void xv_env(void) { if (env_on) havoc_shared(mon_self); }
 
 /* ------------------------------------------------------------------ loop cuts (retry loops of do_try_push / do_try_pop) */
 static void havoc_loop_state(struct vbq* self) {
-  ev = nondet_ev(); xv_clock = nondet_u64();
+  ev = nondet_ev(); xv_clock = nondet_u64(); XV_ASSUME(xv_clock < ((uint64_t)1 << 32));   /* ghost event clock: only used to order the events of the last iteration */
 #ifdef XV_INT
   env_tot_enq = nondet_u64(); env_tot_deq = nondet_u64();
   if (env_mode == 0) havoc_shared(self);
@@ -196,11 +203,9 @@ static void start(struct vbq* q, size_t op, _Bool mid) {
   g_q0 = *q; mon_self = q;
   struct ev z = {0}; ev = z; xv_clock = 0;
 }
-typedef _Bool (*push_fn)(struct vbq*, value*);
-typedef _Bool (*pop_fn)(struct vbq*, value*);
 
 /* ---- SEQ: push from any Inv_V state */
-#define SEQ_PUSH(hname, fn, opcode, STRONG, tag) \
+#define SEQ_PUSH(hname, fn, opcode, STRONG, tag, EXTRA_FAIL) \
 void hname(void) { \
   struct vbq q; start(&q, opcode, 0); \
   value arg = nondet_u64(); in_val = arg; g_arg = &arg; \
@@ -216,7 +221,7 @@ void hname(void) { \
     XV_OBL("vbq.push.rejected_stays_with_caller", ev.arg_moved == 0 && ev.ctor_n == 0 && ev.dtor_n == 0 && arg == in_val); \
     XV_OBL("vbq.inv.preserved", inv_pos(&q, in_deq, in_count) && inv_cell(&q, in_deq, in_count, i)); \
     XV_CANARY(tag ".full"); \
-    if ((size_t)(enq0) < N) XV_CANARY(tag ".full_wrapped");        /* enqueue_pos has wrapped around 2^64, dequeue_pos not yet */ \
+    EXTRA_FAIL \
   } else { \
     XV_OBL("vbq.fifo", q.enqueue_pos == enq0 + 1 && q.dequeue_pos == in_deq && q.index_mask == N - 1);      /* the value goes to position enq */ \
     XV_OBL("vbq.fifo", q.cells[t].data.v == in_val && q.cells[t].sequence == enq0 + 1); \
@@ -230,12 +235,13 @@ void hname(void) { \
     if (in_count == N - 1) XV_CANARY(tag ".ok_becomes_full"); \
   } \
 }
-SEQ_PUSH(h_push_strong, vbq_try_push_strong, 0, 1, "push_s")
-SEQ_PUSH(h_push_weak, vbq_try_push_weak, 1, 0, "push_w")
-SEQ_PUSH(h_push_default, vbq_try_push, 4, !(XV_DEFAULT_TO_WEAK), "push_d")
+/* extra canary of the strong variants: full with enqueue_pos already wrapped around 2^64 and dequeue_pos not yet */
+SEQ_PUSH(h_push_strong, vbq_try_push_strong, 0, 1, "push_s", if (enq0 < N - 1) XV_CANARY("push_s.full_wrapped");)
+SEQ_PUSH(h_push_weak, vbq_try_push_weak, 1, 0, "push_w", )
+SEQ_PUSH(h_push_default, vbq_try_push, 4, !(XV_DEFAULT_TO_WEAK), "push_d", if (enq0 < N - 1) XV_CANARY("push_d.full_wrapped");)
 
 /* ---- SEQ: pop from any Inv_V state */
-#define SEQ_POP(hname, fn, opcode, STRONG, tag) \
+#define SEQ_POP(hname, fn, opcode, STRONG, tag, EXTRA_FAIL) \
 void hname(void) { \
   struct vbq q; start(&q, opcode, 0); \
   value res = nondet_u64(); in_val = res; g_arg = 0; \
@@ -251,7 +257,7 @@ void hname(void) { \
     XV_OBL("vbq.cell.lifetime", ev.ctor_n == 0 && ev.dtor_n == 0 && ev.asT_n == 0); \
     XV_OBL("vbq.inv.preserved", inv_pos(&q, in_deq, in_count) && inv_cell(&q, in_deq, in_count, i)); \
     XV_CANARY(tag ".empty"); \
-    if (in_deq + 1 == 0) XV_CANARY(tag ".empty_at_max"); \
+    EXTRA_FAIL \
   } else { \
     XV_OBL("vbq.fifo", res == g_q0.cells[t].data.v);                                                        /* the value of the oldest position deq */ \
     XV_OBL("vbq.fifo", q.dequeue_pos == in_deq + 1 && q.enqueue_pos == in_deq + in_count && q.index_mask == N - 1); \
@@ -265,9 +271,19 @@ void hname(void) { \
     if (in_count == N) XV_CANARY(tag ".ok_from_full"); \
   } \
 }
-SEQ_POP(h_pop_strong, vbq_try_pop_strong, 2, 1, "pop_s")
-SEQ_POP(h_pop_weak, vbq_try_pop_weak, 3, 0, "pop_w")
-SEQ_POP(h_pop_default, vbq_try_pop, 5, !(XV_DEFAULT_TO_WEAK), "pop_d")
+/* extra canary of the strong variants: empty with both positions at 2^64-1 */
+SEQ_POP(h_pop_strong, vbq_try_pop_strong, 2, 1, "pop_s", if (in_deq + 1 == 0) XV_CANARY("pop_s.empty_at_max");)
+SEQ_POP(h_pop_weak, vbq_try_pop_weak, 3, 0, "pop_w", )
+SEQ_POP(h_pop_default, vbq_try_pop, 5, !(XV_DEFAULT_TO_WEAK), "pop_d", if (in_deq + 1 == 0) XV_CANARY("pop_d.empty_at_max");)
+
+/* ---- the lambdas handed to do_try_pop by try_pop / try_pop_strong / try_pop_weak: success moves the cell's value into result and reports true, empty reports false */
+void h_lambdas(void) {
+  value r = nondet_u64(), v = nondet_u64(), v0 = v; unsigned k = nondet_uint(); XV_ASSUME(k < 3);
+  _Bool s = k == 0 ? vbq_tps_success(&r, &v) : k == 1 ? vbq_tpw_success(&r, &v) : vbq_tpd_success(&r, &v);
+  _Bool e = k == 0 ? vbq_tps_empty() : k == 1 ? vbq_tpw_empty() : vbq_tpd_empty();
+  XV_OBL("vbq.pop.lambda_contract", s && r == v0 && !e);
+  if (k == 2) XV_CANARY("lambdas.default");
+}
 
 /* ---- constructor / destructor */
 void h_ctor(void) {
@@ -296,7 +312,7 @@ void h_dtor(void) {
 
 /* ---- INT: commit obligations under an arbitrary environment (env_mode 0) and full/empty instants under the monotone rely (env_mode 1) */
 #ifdef XV_INT
-#define INT_PUSH(hname, fn, opcode, STRONG, tag) \
+#define INT_PUSH(hname, fn, opcode, STRONG, tag, FAILOBL) \
 void hname(void) { \
   struct vbq q; start(&q, opcode, 0); env_mode = ENV_MODE; env_tot_enq = 0; env_tot_deq = 0; \
   value arg = nondet_u64(); in_val = arg; g_arg = &arg; \
@@ -311,12 +327,12 @@ void hname(void) { \
     XV_OBL("vbq.sync.cell_sequence", ev.seq_store_weak_n == 0 && ev.seq_load_weak_n == 0); \
     XV_CANARY(tag ".int_ok"); \
   } else { \
-    XV_OBL(STRONG ? "vbq.push.commit" : "vbq.weak.no_wrong_success", ev.enq_cas_ok_n == 0 && ev.seq_store_n == 0 && ev.ctor_n == 0 && ev.arg_moved == 0 && arg == in_val); \
+    XV_OBL(FAILOBL, ev.enq_cas_ok_n == 0 && ev.seq_store_n == 0 && ev.ctor_n == 0 && ev.arg_moved == 0 && arg == in_val); \
     if (STRONG && ENV_MODE == 1) XV_OBL("vbq.push_strong.full_instant", ev.full_at_deq_load); \
     XV_CANARY(tag ".int_fail"); \
   } \
 }
-#define INT_POP(hname, fn, opcode, STRONG, tag) \
+#define INT_POP(hname, fn, opcode, STRONG, tag, FAILOBL) \
 void hname(void) { \
   struct vbq q; start(&q, opcode, 0); env_mode = ENV_MODE; env_tot_enq = 0; env_tot_deq = 0; \
   value res = nondet_u64(); in_val = res; g_arg = 0; \
@@ -331,7 +347,7 @@ void hname(void) { \
     XV_OBL("vbq.sync.cell_sequence", ev.seq_store_weak_n == 0 && ev.seq_load_weak_n == 0); \
     XV_CANARY(tag ".int_ok"); \
   } else { \
-    XV_OBL(STRONG ? "vbq.pop.commit" : "vbq.weak.no_wrong_success", ev.deq_cas_ok_n == 0 && ev.seq_store_n == 0 && ev.dtor_n == 0 && ev.asT_n == 0 && res == in_val); \
+    XV_OBL(FAILOBL, ev.deq_cas_ok_n == 0 && ev.seq_store_n == 0 && ev.dtor_n == 0 && ev.asT_n == 0 && res == in_val); \
     if (STRONG && ENV_MODE == 1) XV_OBL("vbq.pop_strong.empty_instant", ev.empty_at_enq_load); \
     XV_CANARY(tag ".int_fail"); \
   } \
@@ -339,10 +355,10 @@ void hname(void) { \
 #ifndef ENV_MODE
 #define ENV_MODE 0
 #endif
-INT_PUSH(h_push_strong_int, vbq_try_push_strong, 0, 1, "push_s")
-INT_PUSH(h_push_weak_int, vbq_try_push_weak, 1, 0, "push_w")
-INT_POP(h_pop_strong_int, vbq_try_pop_strong, 2, 1, "pop_s")
-INT_POP(h_pop_weak_int, vbq_try_pop_weak, 3, 0, "pop_w")
+INT_PUSH(h_push_strong_int, vbq_try_push_strong, 0, 1, "push_s", "vbq.push.commit")
+INT_PUSH(h_push_weak_int, vbq_try_push_weak, 1, 0, "push_w", "vbq.weak.no_wrong_success")
+INT_POP(h_pop_strong_int, vbq_try_pop_strong, 2, 1, "pop_s", "vbq.pop.commit")
+INT_POP(h_pop_weak_int, vbq_try_pop_weak, 3, 0, "pop_w", "vbq.weak.no_wrong_success")
 #endif
 
 /* ---- SOLO: the weak (lock-free) operations return within 2 iterations from every mid-operation state, without interference */
